@@ -10,8 +10,8 @@ from zorg.domain.messages import events
 from zorg.domain.models import Note, Page, TodoPayload
 from zorg.domain.types import NoteType
 
-NN = 2  # old page: at most 2 notes (two notes may carry the same ZID: the later one is the indexed one)
-NEW_MAX = 1 if os.environ.get("VERIF_TIER") != "thorough" else 2  # new page (the loop body depends on one new note and the old map only)
+NN = 2 if os.environ.get("VERIF_TIER") != "thorough" else 3  # old page (two notes may carry the same ZID: the later one is the indexed one)
+NEW_MAX = 1  # new page: the loop body depends on one new note and the old map only (two new notes exceed the one-hour pool budget)
 PATH = T.rec("Path", {"s": T.str()})
 H = "zorg.service.handlers:"
 BOUNDED = f"bounded-symbolic: new page with at most {NEW_MAX} and old page with at most {NN} notes; bodies, ZIDs, dates, payloads fully symbolic"
